@@ -123,7 +123,9 @@ func applyOp(objs []*bt.Tx, o int, op map[string]interface{}, key *bec.PrivateKe
 		}
 	case "insertus":
 		var err error
-		if p, _ := guard(func() { err = tx.InsertInputUnlockingScript(uint32(num(op["idx"])), bscript.NewFromBytes(m2bytes(op, "us"))) }); p {
+		if p, _ := guard(func() {
+			err = tx.InsertInputUnlockingScript(uint32(num(op["idx"])), bscript.NewFromBytes(m2bytes(op, "us")))
+		}); p {
 			res = "panic"
 		} else {
 			errRes(err)
